@@ -200,6 +200,8 @@ func zzApplySetter(pk ControlPacket, a *zzAbs, k int, l int, pre string) bool {
 			w := NewPublish()
 			w.SetQoS(wq)
 			w.SetRetain(wr)
+			wd := zzBool(g.pre + "d") // not on the wire of a CONNECT; must not leak into its flags
+			w.SetDuplicate(wd)
 			w.SetTopicName(string(topic))
 			w.SetPayload(pl)
 			w.SetMessageExpiryInterval(me)
@@ -207,6 +209,7 @@ func zzApplySetter(pk ControlPacket, a *zzAbs, k int, l int, pre string) bool {
 			p.SetWill(w)
 			delay := zzPU(a.willProps, 0x18)
 			a.hasWill = true
+			a.willDup = wd
 			a.willTopic, a.willPayload = topic, pl
 			a.willProps = []zzProp{{id: 0x02, u: me}, {id: 0x03, s: ct}, {id: 0x18, u: uint32(delay)}}
 			a.connFlags = a.connFlags&^0x3c | 0x04 | (wq&3)<<3 | byte(zzB2U(wr))<<5
@@ -596,6 +599,7 @@ func zzWireReflects(p ControlPacket, a *zzAbs, what string) {
 	if a.typ == 3 && a.hflags&6 == 0 {
 		exp.pid = 0 // QoS 0: no packet identifier on the wire
 	}
+	exp.willDup = false // the DUP bit of a will message is not on the wire
 	if a.typ == 1 && !a.hasWill {
 		exp.willProps = nil
 	}
